@@ -322,6 +322,28 @@ Definition live_positions (ch : list (option Z)) (idx : nat) : list (nat * Z) :=
 Definition cursor_after_empty_scan (n idx : nat) : nat :=
   if Nat.eqb n 0 then idx else if Nat.eqb idx 0 || Nat.eqb idx n then n else idx.
 
+(** the walk over the live children in cursor order; [put_bkt] is Bucket.put of a child bucket *)
+Fixpoint try_children (put_bkt : cell -> Z -> cell * bool) (bname aff aname : Z) (p0 : nat)
+         (l : list (nat * Z)) (c : cell) : cell * bool :=
+  match l with
+  | [] => (set_cursor c bname aff (S p0), false)
+  | (p, n) :: r =>
+      let c1 := set_cursor c bname aff (S p) in
+      match get_srv n (c_servers c1) with
+      | Some s =>
+          match s_state s with
+          | Up => match srv_put c1 n aname with
+                  | Some c2 => (c2, true)
+                  | None => try_children put_bkt bname aff aname p0 r c1
+                  end
+          | _ => try_children put_bkt bname aff aname p0 r c1
+          end
+      | None =>
+          let '(c2, ok) := put_bkt c1 n in
+          if ok then (c2, true) else try_children put_bkt bname aff aname p0 r c2
+      end
+  end.
+
 Fixpoint bucket_put (fuel : nat) (c : cell) (bname aname : Z) : cell * bool :=
   match fuel with
   | O => (c, false)
@@ -334,25 +356,7 @@ Fixpoint bucket_put (fuel : nat) (c : cell) (bname aname : Z) : cell * bool :=
             match order with
             | [] => (set_cursor c bname (a_aff a) (cursor_after_empty_scan (length (b_children b)) idx), false)
             | (p0, _) :: _ =>
-                (fix try (l : list (nat * Z)) (c : cell) : cell * bool :=
-                   match l with
-                   | [] => (set_cursor c bname (a_aff a) (S p0), false)
-                   | (p, n) :: r =>
-                       let c1 := set_cursor c bname (a_aff a) (S p) in
-                       match get_srv n (c_servers c1) with
-                       | Some s =>
-                           match s_state s with
-                           | Up => match srv_put c1 n aname with
-                                   | Some c2 => (c2, true)
-                                   | None => try r c1
-                                   end
-                           | _ => try r c1
-                           end
-                       | None =>
-                           let '(c2, ok) := bucket_put f c1 n aname in
-                           if ok then (c2, true) else try r c2
-                       end
-                   end) order c
+                try_children (fun c' n => bucket_put f c' n aname) bname (a_aff a) aname p0 order c
             end
           else (c, false)
       | _, _ => (c, false)
